@@ -101,6 +101,8 @@ let run (path : string) =
             let id = n_of_int (int_of_string ids) in
             if hex_of_bytes (decode_short id) <> nm then mismatch "DecodeShortTopic" line;
             if back <> ids then fail "C21" "short-topic-bijection" line;
+            (* C32: the name a short ID decodes to must be a 2-byte name that encodes back to the ID *)
+            if back <> ids || isshort <> "1" then fail "C32" "short-id-does-not-read-back" line;
             if not (chk_short id) then mismatch "model chk_short" line
           end;
           if int_of_n (encode_short name) <> int_of_string back then mismatch "EncodeShortTopic" line;
